@@ -929,9 +929,20 @@ func (g *G) closureStmt(sc *scope, depth int) []string {
 	np := g.pick("clparams", 3)
 	inner := &scope{parent: sc}
 	inner.params = true
+	blank := -1
+	if np >= 2 && g.chance("clblank", 30) {
+		// a blank parameter still consumes its argument (seeded change C01-12)
+		blank = g.pick("clblankidx", np)
+		g.label("closure-blank-parameter")
+	}
 	for j := 0; j < np; j++ {
 		p := &Var{Name: fmt.Sprintf("c%s%d", "a", j), T: g.scalarTy("clparamty"), Used: true}
 		// avoid clashes with constants c0, c1…: use names ca0, ca1
+		if j == blank {
+			p.Name = "_"
+			sig.Params = append(sig.Params, p)
+			continue
+		}
 		sig.Params = append(sig.Params, p)
 		inner.vars = append(inner.vars, p)
 	}
@@ -982,12 +993,41 @@ func (g *G) encodeStmt(sc *scope) []string {
 	}
 	b := bs[g.pick("encbuf", len(bs))]
 	g.prog.Imports["github.com/goose-lang/goose/machine"] = true
+	// argument forms: any expression, a widening / narrowing conversion written directly as the
+	// argument, a literal; and (often) on a buffer whose bytes are all non-zero from an earlier Put,
+	// so that a Put that writes too few or too many bytes shows (seeded change C01-11)
+	arg := func(t *Ty) string {
+		other := TU32
+		if t.K == KU32 {
+			other = TU64
+		}
+		switch g.pick("encarg", 4) {
+		case 0:
+			if e := g.nonConst(sc, other, 1); e != "" {
+				g.label("encode-argument-conversion")
+				return t.Go() + "(" + e + ")"
+			}
+		case 1:
+			if e := g.nonConst(sc, TU8, 1); e != "" {
+				g.label("encode-argument-conversion")
+				return t.Go() + "(" + e + ")"
+			}
+		case 2:
+			return g.litOf(t, true)
+		}
+		return g.expr(sc, t, 1)
+	}
+	var out []string
+	if b.MinLen >= 8 && g.chance("encprefill", 50) {
+		g.label("encode-over-nonzero-buffer")
+		out = append(out, fmt.Sprintf("machine.UInt64Put(%s, %d)", use(b), []uint64{0xffffffffffffffff, 0x0102030405060708, 0x8877665544332211}[g.pick("encfill", 3)]))
+	}
 	if b.MinLen >= 8 && g.chance("enc64", 60) {
 		g.label("uint64put")
-		return []string{fmt.Sprintf("machine.UInt64Put(%s, %s)", use(b), g.expr(sc, TU64, 1))}
+		return append(out, fmt.Sprintf("machine.UInt64Put(%s, %s)", use(b), arg(TU64)))
 	}
 	g.label("uint32put")
-	return []string{fmt.Sprintf("machine.UInt32Put(%s, %s)", use(b), g.expr(sc, TU32, 1))}
+	return append(out, fmt.Sprintf("machine.UInt32Put(%s, %s)", use(b), arg(TU32)))
 }
 
 // copyStmt: n := copy(dst, src) into a local fresh slice (no overlap: dst is a
